@@ -23,6 +23,14 @@ import time
 
 from . import driver as dr
 
+
+def _limit_mem():
+    """CBMC can need tens of GB on mutated code: cap the address space of the Kani process tree (16 GB) so a runaway
+    query ends as 'unknown' (the fallback then simply gives no verdict) instead of exhausting the machine"""
+    import resource
+    lim = 16 * 1024 ** 3
+    resource.setrlimit(resource.RLIMIT_AS, (lim, lim))
+
 MASK64 = (1 << 64) - 1
 
 
@@ -220,8 +228,8 @@ NATIVE_TWINS = {
     # property -> (test file in bounded_native/, [test fn names or None for all], stated bound)
     'C17': ('c17_registration_model', None,
             '4000 pseudo-random sequences x 16 operations (register, unregister, toggle side, move either king) on a two-king board vs a reference multiset of (placement, side to move) and a reference stack'),
-    'C01': ('c01_perft_suite', ['leaf_counts_match_the_published_perft_figures_with_a_fresh_generator'],
-            'five standard perft positions (start 1..4, Kiwipete 1..3, position 3 1..4, position 4 1..3, position 5 1..3): leaf counts of generate_moves + apply + undo against the published figures, board restored'),
+    'C01': ('c01_perft_suite', ['leaf_counts_match_the_published_perft_figures_with_a_fresh_generator', 'en_passant_is_offered_on_every_file_pair'],
+            'en passant on all 14 adjacent file pairs x 2 colours; five standard perft positions (start 1..5, Kiwipete 1..3, position 3 1..4, position 4 1..3, position 5 1..3): leaf counts of generate_moves + apply + undo against the published figures, board restored'),
     'C02': ('c01_perft_suite', ['leaf_counts_do_not_depend_on_what_the_generator_was_asked_before'],
             'one generator reused across five standard perft positions, depths 1..3, two rounds: leaf counts equal the published figures whatever was asked before'),
     'C05': ('c05_key_model', None,
@@ -235,7 +243,7 @@ NATIVE_TWINS = {
     'C10': ('c10_perft_model', None,
             '4 positions x depths 0..3 x rayon pools {1,2,3,4,7,16} x fresh/reused generator: count_positions == reference count (20, 420, 9322, 206603 from the start position), board unchanged'),
     'C11': ('c11_attack_geometry', None,
-            'rook / bishop / queen / knight / king x 64 squares x 24 pseudo-random blocker sets, pawns of both colours x 48 squares: the reported attack map equals the walked geometry (no wrap-around, rays stop at the first blocker)'),
+            'EXHAUSTIVE for rook and bishop over every subset of the relevance mask on every square (102,400 + 5,248 cases); queen / knight / king x 64 squares x 24 pseudo-random blocker sets; pawns of both colours x 48 squares: the reported attack map equals the walked geometry (no wrap-around, rays stop at the first blocker)'),
     'C18': ('c18_score_model', None,
             'every (piece, colour) alone on every square, 3000 pseudo-random placements of up to 14 men, nine queens: score == -score(colour-swapped rotated position), |score| below every mate score; stalemate 0 and strictly better quicker mates at remaining depths 0..255'),
     'C14': ('c14_c15_game_model', ['coordinate_pairs_accepted_iff_legal_played_exactly_rejected_without_effect', 'typed_labels_accepted_iff_legal_played_exactly_rejected_without_effect'],
@@ -347,7 +355,7 @@ def run_kani_moves(repo, harnesses=None, module='moves'):
             cmd += ['--harness', h]
         cmd += ['-j', '4', '--output-format', 'terse']
         t0 = time.time()
-        p = subprocess.run(cmd, cwd=dst, env=env, stdout=subprocess.PIPE, stderr=subprocess.STDOUT, text=True, timeout=3600)
+        p = subprocess.run(cmd, cwd=dst, env=env, stdout=subprocess.PIPE, stderr=subprocess.STDOUT, text=True, timeout=3600, preexec_fn=_limit_mem)
         out = p.stdout
         m = re.search(r'Complete - (\d+) successfully verified harnesses, (\d+) failures, (\d+) total', out)
         failed_h = [x.split('::')[-1] for x in re.findall(r'Verification failed for - (\S+)', out)]
@@ -363,7 +371,7 @@ def run_kani_moves(repo, harnesses=None, module='moves'):
             # second pass, single-threaded, for CBMC's concrete counterexample of the first failing harness
             cmd2 = ['cargo', 'kani', '--harness', failed_h[0], '--output-format', 'terse', '-Z', 'concrete-playback', '--concrete-playback=print']
             try:
-                p2 = subprocess.run(cmd2, cwd=dst, env=env, stdout=subprocess.PIPE, stderr=subprocess.STDOUT, text=True, timeout=1800)
+                p2 = subprocess.run(cmd2, cwd=dst, env=env, stdout=subprocess.PIPE, stderr=subprocess.STDOUT, text=True, timeout=1800, preexec_fn=_limit_mem)
                 pb = re.findall(r'(#\[test\]\s*fn kani_concrete_playback_\w+\(\) \{.*?\n\})', p2.stdout, re.S)
                 failed = failed or re.findall(r'Failed Checks: (.*)', p2.stdout)
             except Exception:
